@@ -424,6 +424,29 @@ class Lib:
                 if not same(v5, v) or (e5 is None) != ok:
                     st.violation("errno-dependence:" + name, dict(case, stale_errno=stale), dict(value=v, error=not ok), dict(value=v5, error=e5))
                     break
+            ipos = [k for k, a in enumerate(args) if isinstance(a, int) and not isinstance(a, bool) and abs(a) < 2 ** 30]
+            if ipos and rng.random() < 0.5:
+                # a sibling question (one integer argument replaced by a related value: -a-1 is how line macros map to table rows, a+-1 the
+                # neighbouring cell, -a the mirrored one) has one answer, whether it follows itself or this question; and this question has its
+                # answer right after the sibling.  Reaches one-slot memos keyed by a transformed argument.
+                k = rng.choice(ipos)
+                a = args[k]
+                sib = list(args)
+                sib[k] = rng.choice((-a - 1, a + 1, a - 1, -a, -a - 1))
+                sib = tuple(sib)
+                self.call(name, *sib)
+                vs, es = self.call(name, *sib)
+                self.call(name, *args)
+                vt, et = self.call(name, *sib)
+                v6, e6 = self.call(name, *args)
+                sshown = [x.decode("latin-1") if isinstance(x, bytes) else x for x in sib]
+                if not same(vs, vt) or (es is None) != (et is None):
+                    st.violation("sibling-dependence:" + name, dict(case, sibling=sshown), dict(value=vs, error=es, asked="after itself"),
+                                 dict(value=vt, error=et, asked="after the call in 'args'"))
+                    break
+                if not same(v6, v) or (e6 is None) != ok:
+                    st.violation("order-dependence:" + name, dict(case, previous_call=[name] + sshown), dict(value=v, error=not ok), dict(value=v6, error=e6))
+                    break
             prev = [name] + shown
         st.cls("shadow_replayed", len(order))
 
